@@ -22,7 +22,73 @@ fn meta(_ctx: &Ctx) -> EvidenceMeta {
 }
 
 pub fn check(ctx: &Ctx, input: &Input) -> CaseResult {
-    super::c03::iso_case(ctx, input, Area::Module)
+    let mut out = super::c03::iso_case(ctx, input, Area::Module)?;
+    added_import_table_mode(input, &mut out)?;
+    Ok(out)
+}
+
+/// "Nothing is retargeted unless asked to": after an imported table has been
+/// added through the API (it is emitted behind the existing imported tables,
+/// in front of the module-defined ones), every active element segment and
+/// every table export still designates the table it designated before.
+fn added_import_table_mode(input: &Input, out: &mut CaseOut) -> Result<(), Failure> {
+    use crate::decode::{decode, ElemMode, ExtKind};
+    let p = match prepare(input) {
+        Some(p) => p,
+        None => return Ok(()),
+    };
+    let da = match decode(&p.bytes) {
+        Ok(d) => d,
+        Err(_) => return Ok(()),
+    };
+    if da.n_tables() == 0 || crate::optable::validate_walrus(&p.bytes).is_err() {
+        return Ok(());
+    }
+    let cfg = crate::wal::Cfg::plain().to_config();
+    let mut m = match crate::wal::parse(&p.bytes, &cfg) {
+        Ok(Ok(m)) => m,
+        _ => return Ok(()),
+    };
+    if guard("edit", || {
+        m.add_import_table("verif", "added_table", false, 1, Some(3), walrus::RefType::Funcref);
+    })
+    .is_err()
+    {
+        return Ok(());
+    }
+    let b = match crate::wal::emit(&mut m) {
+        Ok(b) => b,
+        Err(_) => return Ok(()),
+    };
+    let db = match decode(&b) {
+        Ok(d) => d,
+        Err(_) => return Ok(()),
+    };
+    let ni = da.imp_tables.len() as u32;
+    let shift = |t: u32| if t >= ni { t + 1 } else { t };
+    if da.elems.len() != db.elems.len() {
+        return Ok(()); // C02/C04's round-trip business
+    }
+    for (i, (ea, eb)) in da.elems.iter().zip(db.elems.iter()).enumerate() {
+        if let (ElemMode::Active { table: ta, .. }, ElemMode::Active { table: tb, .. }) = (&ea.mode, &eb.mode) {
+            if shift(*ta) != *tb {
+                return Err(Failure::new(
+                    "after-adding-an-imported-table:element-segment-retargeted",
+                    format!("element segment {} initialised table {}; after Module::add_import_table it initialises table {} (expected {}) [{}]", i, ta, tb, shift(*ta), p.origin),
+                ));
+            }
+        }
+    }
+    for (ea, eb) in da.exports.iter().zip(db.exports.iter()) {
+        if ea.kind == ExtKind::Table && eb.kind == ExtKind::Table && ea.name == eb.name && shift(ea.index) != eb.index {
+            return Err(Failure::new(
+                "after-adding-an-imported-table:table-export-retargeted",
+                format!("export {:?} designated table {}, now {} (expected {}) [{}]", ea.name, ea.index, eb.index, shift(ea.index), p.origin),
+            ));
+        }
+    }
+    out.label("mode:imported-table-added");
+    Ok(())
 }
 
 fn run(ctx: &Ctx) {
